@@ -14,7 +14,7 @@ func init() {
 func runC19(c *core.Check) {
 	c.Rule = "every MC_E1 AST evaluated in two scopes whose values are canaries (high-entropy strings, numbers, map keys) carried only inside marked values (marks at top level / on elements); every diagnostic's summary, detail and text-writer rendering (width 0 and 78, with source snippet and variable summary) is searched for the canaries; the same for hcldec.Decode of bodies whose attribute / for_each / label is the expression, under 13 specs (attribute types that make conversions fail deep inside marked values, BlockAttrsSpec, dynamic blocks, duplicate map keys). Non-trivial = distinct source whose evaluation produced at least one diagnostic"
 	c.Assumes = []string{"the source text never contains a canary, so snippets cannot cause false positives", "messages of the application function fail() are not canary-bearing"}
-	streamTLC(c, core.TLCRun{Module: "MC_E1", Parts: 4, Consts: e1Consts(c), Timeout: minutes(25), KeepVars: []string{"e", "fv", "last"}},
+	streamTLC(c, core.TLCRun{Module: "MC_E1", NoPred: true, Parts: 4, Consts: e1Consts(c), Timeout: minutes(25), KeepVars: []string{"e", "fv", "last"}},
 		func(st core.State) { c19.Handle(c, st) })
 	// bodies: the expression as an attribute value / for_each / label under 13 hcldec specs (conversion and
 	// decoding error paths of hcldec and dynblock)
@@ -22,6 +22,6 @@ func runC19(c *core.Check) {
 	if c.Tier == "thorough" {
 		bc = map[string]string{"MaxD": "2", "Level2": "\"core\""}
 	}
-	streamTLC(c, core.TLCRun{Module: "MC_E1", Parts: 4, Consts: bc, Timeout: minutes(30), KeepVars: []string{"e", "fv", "last"}},
+	streamTLC(c, core.TLCRun{Module: "MC_E1", NoPred: true, Parts: 4, Consts: bc, Timeout: minutes(30), KeepVars: []string{"e", "fv", "last"}},
 		func(st core.State) { c19.HandleBodies(c, st) })
 }
